@@ -10,7 +10,7 @@ import os
 
 GEN = ['gen_uintmath.json', 'gen_poolconst.json']
 KINDS = ['list', 'flist', 'map', 'set', 'mmap', 'umap', 'uset']
-PART = {'list': 0, 'flist': 0, 'map': 0, 'set': 0, 'mmap': 1, 'umap': 1, 'uset': 1, 'direct': 1}
+PART = {'list': 0, 'flist': 0, 'map': 0, 'set': 0, 'mmap': 1, 'umap': 1, 'uset': 1, 'direct': 1, 'duo': 1, 'retarget': 1}
 TYPES = [(24, 8), (40, 8), (8, 8), (16, 8), (4, 4), (32, 16), (3, 1), (48, 16)]   # harness.cpp TypeOf<>
 
 # hand-made, crash-free scripts that VIOLATE hypothesis H (outside the claim): the model must still predict the real
@@ -31,7 +31,8 @@ def gen_container(r, kind, alloc, nops):
     if r.chance(1, 2): ops.append('n 1')
     for _ in range(nops):
         x = r.below(100); a = r.below(3); b = r.below(3); k = r.below(24); aux = r.below(1000)
-        if x < 38: ops.append('i %d %d %d' % (a, k, aux))
+        if x < 34: ops.append('i %d %d %d' % (a, k, aux))
+        elif x < 38: ops.append('fi %d %d %d %d' % (a, k, aux, r.below(3)))      # insertion with the kth base allocation failing
         elif x < 56: ops.append('e %d %d %d' % (a, k, aux))
         elif x < 60: ops.append('f %d %d' % (a, k))
         elif x < 62: ops.append('c %d' % a)
@@ -77,7 +78,7 @@ def gen_direct(r, nops):
         if not al or (x < 4 and len(hs) < 40):
             ty = r.below(len(TYPES)); hs.append([newpool(ty), ty, True]); out.append('N %d' % ty); continue
         h = r.choice(al)
-        if x < 10: hs.append([hs[h][0], hs[h][1], True]); pools[hs[h][0]]['refs'] += 1; out.append('C %d' % h)
+        if x < 10: hs.append([hs[h][0], hs[h][1], True]); pools[hs[h][0]]['refs'] += 1; out.append('%s %d' % (r.choice(['C', 'M']), h))
         elif x < 24:
             ty = r.choice([hs[h][1], r.below(len(TYPES)), 2, 3]); hs.append([hs[h][0], ty, True]); pools[hs[h][0]]['refs'] += 1
             out.append('R %d %d' % (h, ty))
@@ -89,9 +90,18 @@ def gen_direct(r, nops):
                 pools[hs[g][0]]['refs'] += 1; release(hs[h][0]); hs[h][0] = hs[g][0]; out.append('= %d %d' % (h, g))
         elif x < 46:
             if can_drop(h): release(hs[h][0]); hs[h][2] = False; out.append('X %d' % h)
-        elif x < 76:
+        elif x < 70:
             n = 1 if r.chance(3, 4) else r.choice([2, 3, 7])
             do_alloc(h, n)
+        elif x < 76:
+            # allocate with the first base allocation failing (if none is needed the harness gives the block back);
+            # an idle pool of other parameters is re-targeted either way
+            n = 1 if r.chance(3, 4) else r.choice([2, 3])
+            p_, ty_, _ = hs[h]
+            if n == 1 and pools[p_]['params'] != params(ty_):
+                if pools[p_]['count'] != 0: continue          # would violate H
+                pools[p_]['params'] = params(ty_)
+            out.append('F %d %d %d' % (h, n, r.below(2)))
         else:
             lb = [k for k, b in enumerate(bl) if b[3]]
             if lb:
@@ -108,6 +118,43 @@ def gen_direct(r, nops):
     return 'direct ' + ' '.join(out)
 
 
+def gen_duo(r, alloc, nphases):
+    """list<K> (24-byte nodes) and set<K> (40-byte nodes) sharing ONE pool through the converting allocator constructor.
+    H is kept: only one of them holds nodes at any time; the pool is re-targeted while its cache holds freed blocks of the
+    other node size (the first one allocates and frees everything, then the second inserts)."""
+    out = []; ln = 0; sn = set()
+    for ph in range(nphases):
+        who = 'l' if (ph % 2 == 0) != (r.below(5) == 0) else 's'
+        cnt = r.choice([1, 2, 5, 17, 18, 35, 70])
+        if who == 'l':
+            if sn: out.append('sc'); sn = set()
+            for i in range(cnt):
+                if r.below(12) == 0: out.append('lfi %d %d' % (r.below(50), r.below(2)))    # may or may not fail: only then the list grows
+                else: out.append('li %d %d' % (r.below(50), r.below(1000)))
+            # a failed lfi leaves the list unchanged, a successful one adds a node: either way H holds (set is empty)
+            if r.chance(2, 3): out.append('lc')
+            else:
+                for i in range(cnt // 2): out.append('le %d %d' % (r.below(50), 2 * r.below(100) + 1))
+                out.append('lc')
+        else:
+            out.append('lc')
+            for i in range(cnt):
+                k = r.below(100)
+                if r.below(12) == 0: out.append('sfi %d %d' % (k, r.below(2)))
+                else: out.append('si %d' % k)
+            for i in range(cnt // 3): out.append('se %d' % r.below(100))
+            if r.chance(2, 3): out.append('sc')
+            else: sn = {1}
+    return 'duo %s %s' % (alloc, ' '.join(out))
+
+
+def gen_retarget(r):
+    while True:
+        t1 = r.choice(TYPES); t2 = r.choice(TYPES)
+        if params(TYPES.index(t1)) != params(TYPES.index(t2)): break
+    return 'retarget %d %d %d %d %d' % (t1[0], t1[1], r.choice([0, 1, 2, 5, 15, 16, 17, 18, 31, 32, 33, 40, 70]), t2[0], t2[1])
+
+
 def gen_cases(ctx, scale):
     r = ctx.rng; cases = []
     for kind in KINDS:
@@ -116,6 +163,8 @@ def gen_cases(ctx, scale):
                 cases.append(gen_container(r, kind, alloc, r.choice([8, 25, 60, 110] if alloc == 'pa' else [6, 20, 45])))
     for i in range(150 * scale):
         cases.append(gen_direct(r, r.choice([10, 40, 120])))
+    for i in range(24 * scale):
+        cases.append(gen_duo(r, 'pa' if i % 2 else 'mon', r.choice([2, 3, 6])))
     return cases + REFUTE + [LIBSTDCXX_NODE_HANDLE]
 
 
@@ -143,17 +192,19 @@ def split(line):
 
 
 def oracle(ctx, cases, lines):
-    bad = []; info = {'h_violations_outside_claim': 0, 'reparam_events': 0, 'pool_allocs': 0, 'raw_allocs': 0, 'events': 0}
+    bad = []; info = {'h_violations_outside_claim': 0, 'reparam_events': 0, 'pool_allocs': 0, 'raw_allocs': 0, 'events': 0, 'injected_base_failures': 0}
     for c, l in zip(cases, lines):
         if l is None:
             bad.append((c, '<no output>', 'harness produced no output (crash)')); continue
         head, ev, ob = split(l)
-        st = dict(t.split('=') for t in head.split()[1:] if '=' in t)
+        if head.startswith('CRASH'):
+            bad.append((c, head, 'the real code crashed: ' + head[:200])); continue
+        st = dict(t.split('=', 1) for t in head.split()[1:] if '=' in t)
         if c == LIBSTDCXX_NODE_HANDLE:
             info['libstdcxx_unordered_merge_leaks_allocator_copy'] = not head.startswith('ok'); continue
         if not head.startswith('ok'):
             bad.append((c, head, head[:300])); continue
-        for k_, f in (('reparam', 'reparam_events'), ('pool', 'pool_allocs'), ('raw', 'raw_allocs'), ('events', 'events')):
+        for k_, f in (('reparam', 'reparam_events'), ('pool', 'pool_allocs'), ('raw', 'raw_allocs'), ('events', 'events'), ('failed', 'injected_base_failures')):
             info[f] += int(st.get(k_, 0))
         if c in REFUTE:
             info['h_violations_outside_claim'] += int(st.get('hviol', 0))
@@ -247,9 +298,17 @@ def run(ctx):
     if have_model:
         for (c, why) in model_check(ctx, cases, lines):
             ctx.violation('model and implementation disagree: ' + why, {'case': c}, found_input=True)
+        # statement-level tie of line 119 on a real MemPool whose cache is not empty (the model's OpAllocFail reparam branch)
+        rt = sorted(set(gen_retarget(ctx.rng) for _ in range(60 * scale)))
+        mism, _ = ctx.correspond('retarget', rt, [exes[1]], [ctx.model_exe])
+        ctx.tie_obligations.append({'name': 're-targeting statement (pool_allocator.h:119) on %d real pools with k freed blocks: count, parameters, '
+                                            'cached count before/after and cache consistency as the model says' % len(rt), 'ok': not mism})
+        for (i, c, a, b) in mism[:2]:
+            ctx.violation('re-targeting an idle pool: implementation %r, model %r (cached_before count bs al cached_after consistent)' % (a, b),
+                          {'case': c, 'impl': a, 'model': b}, found_input=True)
     for c in cases[::max(1, len(cases) // 6)][:6]:
         ctx.add_sample(c[:300])
-    ctx.coverage['input_distribution'] = {k: sum(1 for c in cases if c.startswith(k + ' ')) for k in KINDS + ['direct']}
+    ctx.coverage['input_distribution'] = {k: sum(1 for c in cases if c.startswith(k + ' ')) for k in KINDS + ['direct', 'duo']}
     ctx.coverage['observed'] = info
     return ctx.finish(rule=RULE)
 
@@ -258,5 +317,7 @@ RULE = ('cases = for each of std::list/forward_list/map/set/multimap/unordered_m
         '(pa) and through the monitoring subclass (mon): random histories over 3 container slots of insert/emplace/erase/find/clear/'
         'rehash|reserve|sort|reverse/new/destroy/copy-construct/copy-assign/move-construct/move-assign/swap/splice|merge (6-110 ops, keys < 24); '
         '+ random allocator-level scripts over 8 value types (new/copy/rebind/socc/assign/destroy/allocate n in {1,2,3,7}/deallocate) kept '
-        'protocol- and H-respecting by a generator-side simulator (allocate(0) is excluded: momo asserts size > 0); + 2 directed H-violating scripts; distinct = distinct case line; '
+        'protocol- and H-respecting by a generator-side simulator, incl. rvalue construction and allocate with an injected base-allocator '
+        'failure; + list/set pairs of different node sizes sharing one pool in alternating phases (re-targeting with a non-empty cache); '
+        '+ the re-targeting statement on real pools with k in {0..70} freed blocks; container inserts with the kth base allocation failing (allocate(0) is excluded: momo asserts size > 0); + 2 directed H-violating scripts; distinct = distinct case line; '
         'non-trivial = at least 4 simultaneously live nodes or 4 pool allocations')
